@@ -157,6 +157,80 @@ namespace
         }
     };
 
+    // stateless leaf: an empty class, every object is as good as any other (like heap_allocator)
+    template <int Tag>
+    struct sleaf
+    {
+        void* allocate_node(std::size_t sz, std::size_t al)
+        {
+            return leaf_take(Tag, false, 1, sz, al, true, "an");
+        }
+        void* allocate_array(std::size_t n, std::size_t sz, std::size_t al)
+        {
+            return leaf_take(Tag, true, n, sz, al, true, "aa");
+        }
+        void deallocate_node(void* p, std::size_t sz, std::size_t al) noexcept
+        {
+            leaf_give(Tag, p, 1, sz, al, false, "dn");
+        }
+        void deallocate_array(void* p, std::size_t n, std::size_t sz, std::size_t al) noexcept
+        {
+            leaf_give(Tag, p, n, sz, al, false, "da");
+        }
+        void* try_allocate_node(std::size_t sz, std::size_t al) noexcept
+        {
+            return leaf_take(Tag, false, 1, sz, al, false, "tan");
+        }
+        void* try_allocate_array(std::size_t n, std::size_t sz, std::size_t al) noexcept
+        {
+            return leaf_take(Tag, true, n, sz, al, false, "taa");
+        }
+        bool try_deallocate_node(void* p, std::size_t sz, std::size_t al) noexcept
+        {
+            return leaf_give(Tag, p, 1, sz, al, true, "tdn");
+        }
+        bool try_deallocate_array(void* p, std::size_t n, std::size_t sz, std::size_t al) noexcept
+        {
+            return leaf_give(Tag, p, n, sz, al, true, "tda");
+        }
+    };
+    static_assert(!fm::allocator_traits<sleaf<1>>::is_stateful::value, "sleaf must be stateless");
+
+    // stateful leaf that knows whether the harness created it: requests that reach a default constructed
+    // object (instance 0) are strays
+    template <int Tag>
+    struct ileaf : leaf<Tag>
+    {
+        int inst = 0;
+        ileaf() = default;
+        explicit ileaf(int i) : inst(i) {}
+        void stray(const char* op)
+        {
+            if (inst == 0)
+                log_leaf(Tag, op, 0, 0, 0, "stray", nullptr);
+        }
+        void* allocate_node(std::size_t sz, std::size_t al)
+        {
+            stray("an");
+            return leaf<Tag>::allocate_node(sz, al);
+        }
+        void* allocate_array(std::size_t n, std::size_t sz, std::size_t al)
+        {
+            stray("aa");
+            return leaf<Tag>::allocate_array(n, sz, al);
+        }
+        void* try_allocate_node(std::size_t sz, std::size_t al) noexcept
+        {
+            stray("tan");
+            return leaf<Tag>::try_allocate_node(sz, al);
+        }
+        void* try_allocate_array(std::size_t n, std::size_t sz, std::size_t al) noexcept
+        {
+            stray("taa");
+            return leaf<Tag>::try_allocate_array(n, sz, al);
+        }
+    };
+
     // node-only leaf (the traits map arrays onto nodes), composable
     template <int Tag>
     struct leaf_n
@@ -219,10 +293,15 @@ namespace
         // a callback that reaches a tracker object that no longer exists (stale pointer kept by a deeply
         // tracked block allocator across a move) shows as alive = false
         unsigned magic = 0xA11CEu;
+        // a tracker the harness created carries a non-zero instance number; a default constructed one (as a
+        // reference adapter that wrongly takes the tracked allocator for stateless would conjure up) does not
+        int inst = 0;
         log_tracker() = default;
-        log_tracker(const log_tracker&) noexcept : magic(0xA11CEu) {}
-        log_tracker& operator=(const log_tracker&) noexcept
+        explicit log_tracker(int i) : inst(i) {}
+        log_tracker(const log_tracker& o) noexcept : magic(0xA11CEu), inst(o.inst) {}
+        log_tracker& operator=(const log_tracker& o) noexcept
         {
+            inst = o.inst;
             return *this;
         }
         ~log_tracker()
@@ -231,7 +310,7 @@ namespace
         }
         bool alive() const noexcept
         {
-            return magic == 0xA11CEu;
+            return magic == 0xA11CEu && inst != 0;
         }
         void on_node_allocation(void*, std::size_t sz, std::size_t al) noexcept
         {
@@ -643,18 +722,18 @@ namespace
             m.c.reset(spare(new Comp<aligned_allocator<leaf_n<1>>>(16u, leaf_n<1>{}), [] { return aligned_allocator<leaf_n<1>>(4u, leaf_n<1>{}); }));
         else if (name == "tracked")
         {
-            m.c.reset(spare(new Comp<tracked_allocator<log_tracker, leaf<1>>, true, true>(log_tracker{}, leaf<1>{}),
-                             [] { return tracked_allocator<log_tracker, leaf<1>>(log_tracker{}, leaf<1>{}); }));
+            m.c.reset(spare(new Comp<tracked_allocator<log_tracker, leaf<1>>, true, true>(log_tracker{1}, leaf<1>{}),
+                             [] { return tracked_allocator<log_tracker, leaf<1>>(log_tracker{1}, leaf<1>{}); }));
             m.tracker = true;
         }
         else if (name == "tracked_n")
         {
-            m.c.reset(new Comp<tracked_allocator<log_tracker, leaf_n<1>>>(log_tracker{}, leaf_n<1>{}));
+            m.c.reset(new Comp<tracked_allocator<log_tracker, leaf_n<1>>>(log_tracker{1}, leaf_n<1>{}));
             m.tracker = true;
         }
         else if (name == "tracked_p")
         {
-            m.c.reset(new Comp<tracked_allocator<log_tracker, leaf_p<1>>, false>(log_tracker{}, leaf_p<1>{}));
+            m.c.reset(new Comp<tracked_allocator<log_tracker, leaf_p<1>>, false>(log_tracker{1}, leaf_p<1>{}));
             m.tracker = true;
         }
         else if (name == "seg2")
@@ -701,20 +780,20 @@ namespace
         else if (name == "fb_tracked")
         {
             using inner = tracked_allocator<log_tracker, leaf<1>>;
-            m.c.reset(new Comp<fallback_allocator<inner, leaf<2>>>(inner(log_tracker{}, leaf<1>{}), leaf<2>{}));
+            m.c.reset(new Comp<fallback_allocator<inner, leaf<2>>>(inner(log_tracker{1}, leaf<1>{}), leaf<2>{}));
             m.fallback = true; // the tracker sees only what the default allocator serves
         }
         else if (name == "tracked_fb")
         {
             using inner = fallback_allocator<leaf<1>, leaf<2>>;
-            m.c.reset(new Comp<tracked_allocator<log_tracker, inner>>(log_tracker{}, inner(leaf<1>{}, leaf<2>{})));
+            m.c.reset(new Comp<tracked_allocator<log_tracker, inner>>(log_tracker{1}, inner(leaf<1>{}, leaf<2>{})));
             m.fallback = m.tracker = true;
         }
         else if (name == "aligned_tracked")
         {
             using inner = tracked_allocator<log_tracker, leaf<1>>;
-            m.c.reset(spare(new Comp<aligned_allocator<inner>>(32u, inner(log_tracker{}, leaf<1>{})),
-                            [] { return aligned_allocator<inner>(4u, inner(log_tracker{}, leaf<1>{})); }));
+            m.c.reset(spare(new Comp<aligned_allocator<inner>>(32u, inner(log_tracker{1}, leaf<1>{})),
+                            [] { return aligned_allocator<inner>(4u, inner(log_tracker{1}, leaf<1>{})); }));
         }
         else if (name == "ts_fb")
         {
@@ -760,36 +839,71 @@ namespace
             g_leaf[1].shrinking_max = true;
             g_leaf[1].cap           = 1024;
         }
+        else if (name == "tracked_sl")
+        {
+            // stateful tracker over a stateless allocator: the adapter is stateful as a whole
+            m.c.reset(new Comp<tracked_allocator<log_tracker, sleaf<1>>, true, true>(log_tracker{1}, sleaf<1>{}));
+            m.tracker = true;
+        }
+        else if (name == "ref_tracked_sl")
+        {
+            using ta = tracked_allocator<log_tracker, sleaf<1>>;
+            auto s   = std::make_shared<ta>(log_tracker{1}, sleaf<1>{});
+            m.c.reset(new Comp<allocator_reference<ta>>(*s));
+            m.keep    = s;
+            m.tracker = true;
+        }
+        else if (name == "fb_sl")
+        {
+            // stateful default, stateless fallback
+            m.c.reset(new Comp<fallback_allocator<ileaf<1>, sleaf<2>>, true, true>(ileaf<1>(1), sleaf<2>{}));
+            m.fallback = true;
+        }
+        else if (name == "ref_fb_sl")
+        {
+            using fa = fallback_allocator<ileaf<1>, sleaf<2>>;
+            auto s   = std::make_shared<fa>(ileaf<1>(1), sleaf<2>{});
+            m.c.reset(new Comp<allocator_reference<fa>>(*s));
+            m.keep     = s;
+            m.fallback = true;
+        }
+        else if (name == "ref_seg_sl")
+        {
+            using sg = binary_segregator<threshold_segregatable<ileaf<1>>, sleaf<2>>;
+            auto s   = std::make_shared<sg>(threshold(32u, ileaf<1>(1)), sleaf<2>{});
+            m.c.reset(new Comp<allocator_reference<sg>>(*s));
+            m.keep = s;
+        }
         else if (name == "deep_pool")
         {
             m.c.reset(spare(new DeepComp<deep_pool>(fm::make_deeply_tracked_allocator<fm::memory_pool<fm::node_pool, raw_up>>(
-                                log_tracker{}, 16u, fm::memory_pool<fm::node_pool, raw_up>::min_block_size(16, 3), raw_up())),
+                                log_tracker{1}, 16u, fm::memory_pool<fm::node_pool, raw_up>::min_block_size(16, 3), raw_up())),
                             []
                             {
                                 return fm::make_deeply_tracked_allocator<fm::memory_pool<fm::node_pool, raw_up>>(
-                                    log_tracker{}, 32u, fm::memory_pool<fm::node_pool, raw_up>::min_block_size(32, 2), raw_up());
+                                    log_tracker{1}, 32u, fm::memory_pool<fm::node_pool, raw_up>::min_block_size(32, 2), raw_up());
                             }));
             m.tracker = m.mixed = m.deep = true;
         }
         else if (name == "deep_apool")
         {
             m.c.reset(new DeepComp<deep_apool>(fm::make_deeply_tracked_allocator<fm::memory_pool<fm::array_pool, raw_up>>(
-                log_tracker{}, 16u, fm::memory_pool<fm::array_pool, raw_up>::min_block_size(16, 4), raw_up())));
+                log_tracker{1}, 16u, fm::memory_pool<fm::array_pool, raw_up>::min_block_size(16, 4), raw_up())));
             m.tracker = m.mixed = m.deep = true;
         }
         else if (name == "deep_coll")
         {
             m.c.reset(new DeepComp<deep_coll>(
                 fm::make_deeply_tracked_allocator<fm::memory_pool_collection<fm::node_pool, fm::log2_buckets, raw_up>>(
-                    log_tracker{}, 64u, 1200u, raw_up())));
+                    log_tracker{1}, 64u, 1200u, raw_up())));
             m.tracker = m.mixed = m.deep = true;
         }
         else if (name == "deep_stack")
         {
             // (make_deeply_tracked_allocator<memory_stack<...>> does not compile: it list-initialises the
             // allocator from its arguments and memory_stack's constructor is explicit)
-            m.c.reset(spare(new DeepComp<deep_stack>(log_tracker{}, deep_stack::allocator_type(200u, raw_up())),
-                            [] { return deep_stack(log_tracker{}, deep_stack::allocator_type(333u, raw_up())); }));
+            m.c.reset(spare(new DeepComp<deep_stack>(log_tracker{1}, deep_stack::allocator_type(200u, raw_up())),
+                            [] { return deep_stack(log_tracker{1}, deep_stack::allocator_type(333u, raw_up())); }));
             m.tracker = m.mixed = m.deep = m.stk = true;
         }
         else if (name == "fb_pool")
